@@ -518,8 +518,13 @@ pub fn cmd_c16(tier: &str, out: &str) {
         }
     }
     // default reader buffer (8 KiB) and large instantiated capacities
-    for (l, cap, fe) in [(8191usize, 8192usize, 12u16), (8192, 8192, 12), (8193, 8192, 12), (8192, 8191, 10), (8192, 8192, 10), (8192, 8193, 10), (255, 255, 2), (256, 255, 2), (256, 256, 2), (257, 256, 2), (1024, 1024, 5), (1025, 1024, 5)] {
+    for (l, cap, fe) in [(8191usize, 8192usize, 12u16), (8192, 8192, 12), (8193, 8192, 12), (8192, 8191, 10), (8192, 8192, 10), (8192, 8193, 10), (255, 255, 2), (256, 255, 2), (256, 256, 2), (257, 256, 2), (1024, 1024, 5), (1025, 1024, 5),
+        // 2^16 is a boundary for every length the code carries: fixed buffers of 2^16 and more bytes, exactly full and overflowing
+        (65535, 65535, 2), (65536, 65536, 2), (65537, 65537, 5), (65541, 65541, 10), (65536, 65535, 5), (65537, 65536, 2), (70000, 66000, 2), (66001, 66000, 10)] {
         for fill in [0x55u8, 0x00, 0x1b] {
+            if l > 60000 && fill != 0x55 {
+                continue;
+            }
             n += 1;
             let m = vec![fill; l];
             let mut s = frame(&m);
